@@ -99,3 +99,20 @@ def _fault_inside_modifycolumn(v):
   if len(cols) != 1:
     return False
   return all(b in DEFAULT_TOKENS for (_t, _c, _r, _a, b) in cells)
+
+
+SUMMARY_RESTRUCTURING = ("UpdateSummaryViewSection", "DetachSummaryViewSection", "RemoveViewSection",
+                         "RemoveView", "CreateViewSection")
+
+
+@matcher("undo_raises_multi_action_summary_bundle")
+def _undo_raises_summary(v):
+  """
+  The undo of a bundle of SEVERAL user actions, one of which restructures a summary table / view
+  section, raises AssertionError (calc and auto-remove undo actions of summary rows are mis-ordered).
+  """
+  ctx = v.get("context", {})
+  if v.get("clause") != "C01.applies" or ctx.get("exc") not in ("AssertionError", "KeyError"):
+    return False
+  uas = ctx.get("of_uas") or []
+  return len(uas) >= 2 and any(u and u[0] in SUMMARY_RESTRUCTURING for u in uas)
